@@ -51,8 +51,104 @@ func allTerms(p *Program) []Term {
 
 // Mutate applies one mutation in place and describes it ("" if none applied).
 func Mutate(p *Program, intn func(int) int) string {
-	switch intn(7) {
-	case 6: // call a different definition of the same arity
+	switch intn(13) {
+	case 11, 12: // a closed body replaced by `h(self)` for some parameterless definition h (of whatever type)
+		var nullary []*Def
+		for _, d := range p.Defs {
+			if len(d.Params) == 0 {
+				nullary = append(nullary, d)
+			}
+		}
+		if len(nullary) == 0 {
+			return ""
+		}
+		type site struct {
+			body *Term
+			ty   *Ty
+			name string
+		}
+		var sites []site
+		for _, d := range p.Defs {
+			if len(d.Params) == 0 && d.Prov == "" {
+				sites = append(sites, site{&d.Body, d.Res, d.Name})
+			}
+		}
+		for _, q := range p.Procs {
+			if q.Exec == "" && len(q.Names) == 1 {
+				fv := map[string]bool{}
+				FV(q.Body, map[string]bool{}, fv)
+				if len(fv) == 0 {
+					sites = append(sites, site{&q.Body, q.T, q.Names[0]})
+				}
+			}
+		}
+		if len(sites) == 0 {
+			return ""
+		}
+		s := sites[intn(len(sites))]
+		h := nullary[intn(len(nullary))]
+		if h.Name == s.name {
+			return ""
+		}
+		*s.body = &Call{F: h.Name, Args: []string{"self"}}
+		return fmt.Sprintf("body of %s (type %s) replaced by %s(self) (type %s)", s.name, s.ty.Text(), h.Name, h.Res.Text())
+	case 9, 10: // change the declared provider type of a definition or process that hands its provider to a callee
+		hasSelfCall := func(t Term) bool {
+			found := false
+			var walk func(t Term)
+			walk = func(t Term) {
+				switch x := t.(type) {
+				case *Call:
+					if len(x.Args) > 0 && (x.Args[0] == "self") {
+						found = true
+					}
+				case *Recv:
+					walk(x.K)
+				case *Case:
+					for _, b := range x.Brs {
+						walk(b.K)
+					}
+				case *New:
+					walk(x.K)
+				case *Wait:
+					walk(x.K)
+				case *Split:
+					walk(x.K)
+				case *Drop:
+					walk(x.K)
+				case *Print:
+					walk(x.K)
+				case *Shift:
+					walk(x.K)
+				}
+			}
+			walk(t)
+			return found
+		}
+		var sites []**Ty
+		for _, d := range p.Defs {
+			if hasSelfCall(d.Body) {
+				sites = append(sites, &d.Res)
+			}
+		}
+		for _, q := range p.Procs {
+			if q.Exec == "" && hasSelfCall(q.Body) {
+				sites = append(sites, &q.T)
+			}
+		}
+		all := annotationSites(p)
+		if len(sites) == 0 || len(all) == 0 {
+			return ""
+		}
+		s := sites[intn(len(sites))]
+		other := *all[intn(len(all))]
+		if key(other) == key(*s) {
+			other = &Ty{K: KPlus, M: (*s).M, Brs: []Br{{"a", &Ty{K: KUnit, M: (*s).M}}}}
+		}
+		old := *s
+		*s = other
+		return fmt.Sprintf("provider type %s of a definition with an explicit-self call replaced by %s", old.Text(), other.Text())
+	case 6, 7, 8: // call a different definition of the same arity (explicit-self calls first)
 		var cands []*Call
 		for _, t := range allTerms(p) {
 			if x, ok := t.(*Call); ok {
@@ -63,6 +159,12 @@ func Mutate(p *Program, intn func(int) int) string {
 			return ""
 		}
 		x := cands[intn(len(cands))]
+		for _, c := range cands {
+			if len(c.Args) > 0 && c.Args[0] == "self" && intn(2) == 1 {
+				x = c
+				break
+			}
+		}
 		n := len(x.Args)
 		if n > 0 && x.Args[0] == "self" {
 			n--
